@@ -735,9 +735,81 @@ func partB(rep *kit.Report) {
 	}
 }
 
+// ---- part (c): what a directive's setup code sees ----
+//
+// Every directive reads its tokens through a Dispenser (Next, RemainingArgs, NextLine ...). For every pair of directive
+// lines of <=3 arguments over {plain, quoted with a space, an environment reference, quoted with a line break}, under an
+// ordinary value and under a value that contains a line break, the arguments a Dispenser hands out for each line must be
+// exactly those written on it.
+func partC(rep *kit.Report) {
+	if !rep.Mine(2) {
+		return
+	}
+	type arg struct{ src, val string }
+	name := filepath.Join(dir, "Casketfile")
+	for _, env := range []string{"val", "x\ny"} {
+		os.Setenv("V", env)
+		alpha := []arg{{"a", "a"}, {"\"q r\"", "q r"}, {"{$V}", env}, {"\"m\nl\"", "m\nl"}}
+		var lines [][]arg
+		var gen func(cur []arg)
+		gen = func(cur []arg) {
+			if len(cur) > 0 {
+				lines = append(lines, append([]arg{}, cur...))
+			}
+			if len(cur) == 3 {
+				return
+			}
+			for _, a := range alpha {
+				gen(append(cur, a))
+			}
+		}
+		gen(nil)
+		render := func(l []arg) (src string, vals []string) {
+			for _, a := range l {
+				src += " " + a.src
+				vals = append(vals, a.val)
+			}
+			return
+		}
+		for _, l1 := range lines {
+			for _, l2 := range lines {
+				s1, v1 := render(l1)
+				s2, v2 := render(l2)
+				text := "host {\n\td1" + s1 + "\n\td2" + s2 + "\n}\n"
+				res := parseGuarded(rep, name, text)
+				rep.Eval(1)
+				gotS := ""
+				switch {
+				case res.panicV != nil:
+					gotS = fmt.Sprintf("panic: %v", res.panicV)
+				case res.err != nil:
+					gotS = "error: " + res.err.Error()
+				case len(res.blocks) != 1:
+					gotS = fmt.Sprintf("%d blocks", len(res.blocks))
+				default:
+					for _, dn := range []string{"d1", "d2"} {
+						d := casketfile.NewDispenserTokens(name, res.blocks[0].Tokens[dn])
+						var seen [][]string
+						for d.Next() {
+							seen = append(seen, append([]string{d.Val()}, d.RemainingArgs()...))
+						}
+						gotS += fmt.Sprintf("%s:%q ", dn, seen)
+					}
+				}
+				want := fmt.Sprintf("d1:%q d2:%q ", [][]string{append([]string{"d1"}, v1...)}, [][]string{append([]string{"d2"}, v2...)})
+				if gotS != want {
+					rep.Violation("C10/dispenser-view/arguments-of-a-line-differ", "the arguments a Dispenser hands out for a directive line are not those written on it", rtCase{Main: text, Env: env, Want: want, Got: gotS})
+				}
+				rep.Class("dispenser-view/env-with-line-break=" + fmt.Sprint(strings.Contains(env, "\n")))
+			}
+		}
+	}
+	os.Unsetenv("V")
+}
+
 func main() {
 	rep := kit.NewReport("C10", "exploration",
-		"(a) every string of <=6 (thorough 7) symbols over a 14-symbol macro-alphabet and every sequence of <=5 (6) lines over a 14-line alphabet with import targets that are acyclic, self-importing and mutually importing, x 3 environments (and, one symbol shorter, 2 more: a value naming itself, a value with a line break), each parsed under a watchdog; (b) every AST of a menu (~1k) x 288 layouts x every single-directive split into an import file or snippet x 2 environments, printed, parsed and compared; distinct_nontrivial = outcome classes (error kinds, block counts, round-trip shapes)")
+		"(a) every string of <=6 (thorough 7) symbols over a 14-symbol macro-alphabet and every sequence of <=5 (6) lines over a 14-line alphabet with import targets that are acyclic, self-importing and mutually importing, x 3 environments (and, one symbol shorter, 2 more: a value naming itself, a value with a line break), each parsed under a watchdog; (b) every AST of a menu (~1k) x 288 layouts x every single-directive split into an import file or snippet x 2 environments, printed, parsed and compared; (c) every pair of directive lines of <=3 arguments over 4 argument shapes under 2 environment values, read back through a Dispenser as the setup code of a directive does; distinct_nontrivial = outcome classes (error kinds, block counts, round-trip shapes)")
 	if !rep.IsWorker() {
 		rep.Assume("environment values never contain placeholder syntax; glob imports limited to one pattern; import targets live next to the Casketfile")
 		rep.RunWorkers(16)
@@ -753,6 +825,7 @@ func main() {
 	startWatchdog(rep)
 	partA(rep, known)
 	partB(rep)
+	partC(rep)
 	os.RemoveAll(dir)
 	rep.Finish()
 }
